@@ -319,9 +319,11 @@ type Runner struct {
 	poisoned   bool // a start with a foreign genesis block rewrote the database: what follows is not judged any more
 	op         int
 	Notes      map[string]int
-	Lookups    bool         // run the lookup oracle of C05 (lookups.go) after every step
-	lk         *lookupState // lookups.go
-	dur        *durable     // durable.go: the database lives on a strict in-memory file system with small memtables
+	Lookups    bool            // run the lookup oracle of C05 (lookups.go) after every step
+	lk         *lookupState    // lookups.go
+	dur        *durable        // durable.go: the database lives on a strict in-memory file system with small memtables
+	inj        *node.Injection // inject.go: the failure armed for the current step (token inj=)
+	injKind    string          // its kind ("" = none)
 }
 
 func (r *Runner) fail(sig, detail string) {
@@ -429,6 +431,7 @@ func (r *Runner) state(res string, evs []node.Event) string {
 	}
 	line := fmt.Sprintf("%s fin=%s tip=%s fz=%s ev=%s d=%s", res, fin, tip, fz, evTokens(evs), Delta(r.prev, dump))
 	// --- C04 oracles
+	prevFin := r.fin
 	if finOK {
 		if f < r.fin {
 			r.fail("c04-fin-decreased", fmt.Sprintf("finalized height %d -> %d", r.fin, f))
@@ -487,8 +490,10 @@ func (r *Runner) state(res string, evs []node.Event) string {
 		}
 		if !bytes.Equal(top, t.Header.ID) {
 			r.fail("c05-cached-tip-wrong", fmt.Sprintf("cached tip %x at %d, database index ends with %x", []byte(t.Header.ID), t.Header.Height, top))
+			r.fail("c04-cached-tip-not-database-tip", fmt.Sprintf("cached tip %x at %d, database index ends with %x", []byte(t.Header.ID), t.Header.Height, top))
 		}
 	}
+	r.afterStepOracle(finOK, f, prevFin) // inject.go (judged after EVERY step, failed or not)
 	r.orderOracle()
 	r.noteEvents(evs)
 	r.lookupOracle(dump) // C05: every public lookup against the current chain (lookups.go)
@@ -677,6 +682,7 @@ func (r *Runner) deleteOp(target *blockchain.Block, saveTemp bool, what string) 
 	tempsBefore, _ := n.TempBlocks()
 	isTip := bytes.Equal(target.Header.ID, n.Tip().Header.ID)
 	err := DeleteBlock(n, target, saveTemp)
+	r.disarm()
 	evs := n.DrainEvents()
 	res := "ok"
 	switch {
@@ -758,6 +764,7 @@ func (r *Runner) step(op string) string {
 		return "bad-op"
 	}
 	a := args(op)
+	r.injKind = a["inj"]
 	if w[0] == "reset" {
 		return r.reset(a)
 	}
@@ -781,6 +788,21 @@ func (r *Runner) step(op string) string {
 	if n == nil {
 		return "no-node"
 	}
+	if k := a["inj"]; k != "" {
+		// failure injection (inject.go): armed for this step only
+		switch w[0] {
+		case "pv", "proc", "del", "delat", "till":
+			if n.Exec == nil {
+				return "no-node"
+			}
+			inj, err := n.Arm(k)
+			if err != nil {
+				return "bad-op"
+			}
+			r.inj = inj
+			defer r.disarm()
+		}
+	}
 	switch w[0] {
 	case "pv", "proc":
 		b, err := ParseBlock(a)
@@ -800,12 +822,14 @@ func (r *Runner) step(op string) string {
 			if a["sy"] == "1" {
 				n.Exec.VerifC04SetSyncing(true)
 			}
-			err := n.ProcessValidated(b, a["rt"] == "1")
+			err := n.ProcessValidatedPublish(b, a["rt"] == "1", r.inj.Publish())
+			r.disarm()
 			if a["sy"] == "1" && n.Exec != nil {
 				n.Exec.VerifC04SetSyncing(false)
 			}
 			evs := n.DrainEvents()
 			applied := n.Tip() != nil && bytes.Equal(n.Tip().Header.ID, b.Header.ID) && !bytes.Equal(tipBefore.Header.ID, b.Header.ID)
+			r.errorAfterWrite("processValidated", b, err, before.dump) // inject.go
 			res := "ok"
 			switch {
 			case err != nil && isPanic(err):
@@ -825,6 +849,8 @@ func (r *Runner) step(op string) string {
 		lr0 := n.Exec.VerifLastBlockReceived()
 		now0 := time.Now()
 		res := n.ProcessResult(b)
+		r.disarm()
+		r.errorAfterWrite("process", b, res.Err, before.dump)                               // inject.go
 		r.tieBreakOracle(tipBefore.Header, b.Header, lr0, now0, time.Now(), res.ForkChoice) // C07 (slotoracle.go)
 		evs := n.DrainEvents()
 		out := ""
@@ -942,6 +968,7 @@ func (r *Runner) step(op string) string {
 				err = sy.VerifC04FastDeleteTillCommonBlock(&sync.SyncContext{Ctx: context.Background()}, common)
 			}
 		}()
+		r.disarm()
 		evs := n.DrainEvents()
 		res := "ok"
 		if err != nil {
